@@ -1821,6 +1821,12 @@ class ECDHCipherText(CipherText):
         super(ECDHCipherText, self).__init__()
         self.c = bytearray(0)
 
+    def __copy__(self):
+        # the wrapped session key is not one of __mpis__
+        ct = super(ECDHCipherText, self).__copy__()
+        ct.c = copy.copy(self.c)
+        return ct
+
     def __bytearray__(self):
         _bytes = bytearray()
         _bytes += self.p.to_mpibytes()
